@@ -896,6 +896,8 @@ impl Kademlia {
                 let key = record.key.clone();
                 let message: Bytes = KademliaMessage::put_value(record);
 
+                let mut failed_peers = Vec::new();
+
                 for peer in &peers {
                     if let Err(error) = self.open_substream_or_dial(
                         peer.peer,
@@ -910,6 +912,7 @@ impl Kademlia {
                             ?error,
                             "failed to put record to peer",
                         );
+                        failed_peers.push(peer.peer);
                     }
                 }
 
@@ -919,6 +922,12 @@ impl Kademlia {
                     peers.into_iter().map(|peer| peer.peer).collect(),
                     quorum,
                 );
+
+                // The peers that could not be reached at all will never produce a send result,
+                // report them as failed now that the tracking has started.
+                for peer in failed_peers {
+                    self.engine.register_send_failure(query, peer);
+                }
 
                 Ok(())
             }
@@ -950,6 +959,8 @@ impl Kademlia {
 
                 let message = KademliaMessage::add_provider(provided_key.clone(), provider);
 
+                let mut failed_peers = Vec::new();
+
                 for peer in &peers {
                     if let Err(error) = self.open_substream_or_dial(
                         peer.peer,
@@ -962,7 +973,8 @@ impl Kademlia {
                             ?provided_key,
                             ?error,
                             "failed to add provider record to peer",
-                        )
+                        );
+                        failed_peers.push(peer.peer);
                     }
                 }
 
@@ -972,6 +984,12 @@ impl Kademlia {
                     peers.into_iter().map(|peer| peer.peer).collect(),
                     quorum,
                 );
+
+                // The peers that could not be reached at all will never produce a send result,
+                // report them as failed now that the tracking has started.
+                for peer in failed_peers {
+                    self.engine.register_send_failure(query, peer);
+                }
 
                 Ok(())
             }
